@@ -150,6 +150,10 @@ def cases(draw, tier):
     if vals is not None:
         for s, v in zip(spec["states"], vals):
             s["value"] = v
+    if draw(st.integers(0, 2)) == 0:
+        # display names are free text: several states may share one (identity of a state is its id / value, not its name)
+        for s_ in spec["states"]:
+            s_["name"] = draw(st.sampled_from(["Same", "Same", "Other", "S0", "s1"]))
     is_async = gen.is_async_spec(spec)
     cfg = {"rtc": True if is_async else draw(st.sampled_from([True, True, False])), "allow": draw(st.booleans()),
            "driver": draw(st.sampled_from(["sync", "sync", "loop"])), "activate": True,
